@@ -23,9 +23,7 @@ namespace avel {
         //=================================================
 
         explicit Denominator(Denom64u denom):
-            m(denom.m),
-            sh2(denom.sh2),
-            d(denom.d) {}
+            Denominator(vec2x64u{denom.value()}) {}
 
         explicit Denominator(vec2x64u d):
             Denominator(d, vec2x64u{64} - countl_zero(d - vec2x64u{1})) {}
